@@ -168,7 +168,7 @@ def roll_setup(name, year, rolls, month=0):
     return chain, start, end
 
 
-def run_roll(name, year, rolls, stride, phase, script, spread, threshold, calendar_days, month=0, fractional=True, late=False):
+def run_roll(name, year, rolls, stride, phase, script, spread, threshold, calendar_days, month=0, fractional=True, late=False, delay=0):
     chain, start, end = roll_setup(name, year, rolls, month)
     days_ = bdays(start, end, calendar_days)[phase::stride]
     # `late`: decisions are taken at 23:30 of the previous day with a latency of one hour, and every contract is re-quoted at
@@ -208,7 +208,7 @@ def run_roll(name, year, rolls, stride, phase, script, spread, threshold, calend
     tr = Transmitter(list(days_))
     tr.add_events(evs)
     env = TradingEnv(BoxPortfolio([chain], -2.0, 2.0, margin=threshold, fractional=fractional), transmitter=tr, initial_cash=1e7,
-                     latency=3600 if late else 0)
+                     latency=3600 if late else 0, steps_delay=delay)
     try:
         env.reset()
     except Exception as e:
@@ -217,14 +217,19 @@ def run_roll(name, year, rolls, stride, phase, script, spread, threshold, calend
     steps = 0
     rolled = 0
     prev_lead = None
+    submitted = []
     for k in range(1, len(days_)):
         kind = ACTION_KINDS[script[(k - 1) % len(script)]]
         # "small": a position worth less than the 5% threshold, reached by cutting a larger one
-        w = {"+w": w0, "-w": -w0, "0": 0.0, "w+": w0 + 0.02, "small": 0.03, "-small": -0.03}[kind]
+        w_sub = {"+w": w0, "-w": -w0, "0": 0.0, "w+": w0 + 0.02, "small": 0.03, "-small": -0.03}[kind]
+        submitted.append(w_sub)
+        # with an execution delay the allocation executed now is the one submitted `delay` decisions earlier (null action before
+        # that); the chain is resolved when the execution takes place, not when the decision was submitted
+        w = submitted[-1 - delay] if len(submitted) > delay else 0.0
         D = days_[k - 1] + exec_shift      # the simulation time at which the execution takes place
         lead = ref_lead(cs, D, month)
         try:
-            o, r, done, info = env.step(np.array([w]))
+            o, r, done, info = env.step(np.array([w_sub]))
         except Exception as e:
             msgs.append("step %d (decision time %s, lead %s) raised %r" % (k, D, lead.symbol if lead else None, e))
             break
@@ -282,6 +287,9 @@ def roll_cases(tier):
                                     out.append((name, year, rolls, stride, phase, script, spread, threshold, calendar_days, 0, False))
                                 if name == "ES" and stride in (1, 2) and spread and threshold == 0.0:
                                     out.append((name, year, rolls, stride, phase, script, spread, threshold, calendar_days, 0, True, True))
+                                if name == "ES" and stride in (1, 2) and spread and threshold == 0.0:
+                                    for delay in (1, 2):      # decisions in flight across the roll
+                                        out.append((name, year, rolls, stride, phase, script, spread, threshold, calendar_days, 0, True, False, delay))
     return out
 
 
@@ -341,7 +349,7 @@ def replay(case, **kw):
         msgs, _ = check_lead(case["cls"], datetime(case["year"], 1, 1), datetime(case["year"] + case["span"] - 1, 12, 31), case["offset"])
         return msgs
     c = case["case"]
-    msgs, _ = run_roll(c[0], c[1], c[2], c[3], c[4], tuple(c[5]), c[6], c[7], c[8], c[9] if len(c) > 9 else 0, c[10] if len(c) > 10 else True, c[11] if len(c) > 11 else False)
+    msgs, _ = run_roll(c[0], c[1], c[2], c[3], c[4], tuple(c[5]), *c[6:])
     return msgs or []
 
 
